@@ -35,3 +35,11 @@ VARIANTS = [
     V("twin-integrate-rename", CORE + "base_solver.py", "                    curr_t = next_t\n",
       "                    t_new = next_t\n                    curr_t = t_new\n", expect="silent"),
 ]
+
+VARIANTS += [
+    # round-5 C17 seed: Brownian-bridge dense output for the additive declaration. The reported value inside a step is no
+    # longer the linear interpolant (C12), but the solver still continues from the grid state and the reported values
+    # converge at least as fast (C01 holds)
+    V("additive-bridge-dense-output", CORE + "base_solver.py", "            ys.append(interp.linear_interp(t0=prev_t, y0=prev_y, t1=curr_t, y1=curr_y, t=out_t))",
+      "            out_y = interp.linear_interp(t0=prev_t, y0=prev_y, t1=curr_t, y1=curr_y, t=out_t)\n            if self.sde.noise_type == NOISE_TYPES.additive and prev_t < out_t < curr_t:\n                theta = (out_t - prev_t) / (curr_t - prev_t)\n                bridge = self.bm(prev_t, out_t) - theta * self.bm(prev_t, curr_t)\n                out_y = out_y + self.sde.g_prod(prev_t, prev_y, bridge)\n            ys.append(out_y)", expect="silent"),
+]
